@@ -31,6 +31,7 @@ EXPLANATION = (
     "non-decreasing index; a single scalar uniform offset is shared by all comb positions (U + arange(n))/n; the "
     "multinomial branch draws n indices with replacement over the whole weight vector with p = the given weights. "
     "The expectation n*w_i and the floor/ceil count law themselves (numerical, over all offsets) are not decided."
+    " Also (h) the number of draws the package requests is the length of the weight vector it passes (or the particle count) and does not hinge on an identity test against True/False; a draw in a default argument is reported."
 )
 ASSUMPTIONS = ["numpy.random.choice(a, size, replace=True, p) draws i.i.d. categorical indices", "weights are non-negative (callers normalise)"]
 
